@@ -340,6 +340,7 @@ struct Exh {
   Tape *failTape;
   bool dfs(RowLegalizer &queried, const RowLegalizer &pristine, i128 sum) {
     ++R.exhaustiveStates;
+    R.heartbeat();
     size_t n = cells.size();
     if (n > 0) {
       std::vector<int> pl = queried.getPlacement();
